@@ -125,6 +125,32 @@ def check_mapped_wrapper(variant, res, runner_name):
                      replay={"harness": "C06", "spec": variant, "runner": runner_name, "part": "mapped"})
 
 
+def check_revisit(variant, res, runner_name):
+    """A rename chain that RETURNS TO AN INTERMEDIATE name (a -> x -> y -> x): the value must travel under the current name."""
+    set_case("C06", variant, runner_name)
+    run = run_sync if runner_name == "sync" else run_async
+    log = Log()
+    kind = variant["kind"]
+    if kind.startswith("nested"):
+        inner = Graph([tagged_node("f", ["a"], ["r"], log)], name="inner")
+        nd = inner.as_node()
+    else:
+        nd = tagged_node("f", ["a"], ["r"], log)
+    if kind.endswith("outputs"):
+        nd = nd.with_outputs({"r": "x"}).with_outputs({"x": "y"}).with_outputs({"y": "x"})
+        g = Graph([nd, tagged_node("use", ["x"], ["out"], log)])
+        inputs, expect = {"a": 1}, {"x": repr(("f", 0, 1)), "out": repr(("use", 0, ("f", 0, 1)))}
+    else:
+        nd = nd.with_inputs({"a": "x"}).with_inputs({"x": "y"}).with_inputs({"y": "x"})
+        g = Graph([nd])
+        inputs, expect = {"x": 1}, {"r": repr(("f", 0, 1))}
+    out = run(g, inputs)
+    res.case(repr((variant, runner_name)), nontrivial=True, sample={"variant": variant, "runner": runner_name, "outcome": out})
+    if out["status"] != "completed" or out["values"] != expect:
+        res.fail(kind="oracle", function="with_inputs/with_outputs (rename chain returning to an intermediate name)", what=f"{kind}: a -> x -> y -> x gives {out}, expected {expect}", runner=runner_name,
+                 replay={"harness": "C06", "spec": variant, "runner": runner_name, "part": "revisit"})
+
+
 def run(tier, seed, functions):
     n = 120 if tier == "quick" else 2500
     res = Result("C06", "random DAGs x net-identity rename histories per node (round trips, chains through temporaries, double swaps, name re-use; node optionally used before renaming) "
@@ -144,6 +170,9 @@ def run(tier, seed, functions):
     for kind in ("map_swap", "map_chain", "map_then_rename_twice", "clone_swap"):
         for r in ("sync", "async"):
             check_mapped_wrapper({"kind": kind}, res, r)
+    for kind in ("nested_outputs", "nested_inputs", "function_outputs", "function_inputs"):
+        for r in ("sync", "async"):
+            check_revisit({"kind": kind}, res, r)
     for f in res.failures:
         if f.get("replay", {}).get("harness") == "C05":
             f["replay"]["harness"] = "C06"
@@ -161,6 +190,8 @@ def replay(rep):
         check_alpha(rep["spec"], res, rep["runner"])
     elif part == "mapped":
         check_mapped_wrapper(rep["spec"], res, rep["runner"])
+    elif part == "revisit":
+        check_revisit(rep["spec"], res, rep["runner"])
     else:
         C05.check_spec(rep["spec"], res, rep["runner"])
     return [f["what"] for f in res.failures]
